@@ -506,6 +506,9 @@ def run(ctx):
                           {"theorem_or_correspondence": (gen_error or (pr["file"] if not pr["ok"] else "impl != Io.Model on " + mismatches[0][0])),
                            "first_mismatch": mismatches[0] if mismatches else None, "coq_log": pr["log"][-1500:],
                            "generated_tables": tables[:1500]}, no_input=True)
+    # extension P: the job queue and the proxy pthreads under schedules (micro-step machine Io/QueueMicro.v)
+    from . import _c20_queue
+    _c20_queue.run_queue(ctx, quick)
 
 
 def replay(ctx, path):
